@@ -31,8 +31,9 @@ def cases(rng, tier):
         out.append(dict(seed=1000 + i, n=80, profile=p))
     # hostile participants: several fixed walks (a third side posting unusable PAKE bodies and undecryptable bytes, with
     # and without an honest peer)
-    for i in range(12 if tier == "quick" else 60):
-        out.append(dict(seed=2000 + i, n=70, profile="third-alone" if i % 3 else "third"))
+    out.extend(mc.hostile_corpus())
+    for i in range(24 if tier == "quick" else 120):
+        out.append(dict(seed=2000 + i, n=100, profile="third-alone" if i % 2 else "third"))
     for _ in range(n):
         out.append(dict(seed=rng.randrange(10**9), n=rng.choice([30, 60, 120, 200]), profile=rng.choice(mc.PROFILES)))
     return out
